@@ -68,6 +68,10 @@ def run(res, tier, seed, shard, nshards):
             for silent_from in (0, 2):
                 jobs.append(("silent-dt", interval, to, 0.0, silent_from, "none", T))
             jobs.append(("responsive-dt", interval, to, 0.0, "half", "periodic", T))
+    # a fragmented message straddling every ping/pong exchange
+    for interval, to in ((1.0, 0.4), (2.0, 0.5), (3.0, 1.0), (0.6, 0.25)):
+        for latency in ("zero", "eps", "half"):
+            jobs.append(("responsive", interval, to, 0.0, latency, "fragments-straddle-pings"))
     # an on_pong handler that takes longer than the ping timeout (but is done before the next ping is due): the pong it is
     # handling arrived in time.  (Handlers of *other* events that block the loop past the timeout while a pong waits unread
     # are outside the statement's quantifier and not driven: the unchanged code reports a timeout there.)
@@ -155,7 +159,7 @@ def traffic_script(kind, phase, to, interval, until):
     return script
 
 
-def execute(plan, run_kwargs, tie, horizon, strategy=None, second_run_kwargs=None, reconnect=None, default_timeout=None, hooks=None):
+def execute(plan, run_kwargs, tie, horizon, strategy=None, second_run_kwargs=None, reconnect=None, default_timeout=None, hooks=None, app_kwargs=None):
     out = {}
 
     def scen():
@@ -163,7 +167,7 @@ def execute(plan, run_kwargs, tie, horizon, strategy=None, second_run_kwargs=Non
         if default_timeout is not None:
             # a process-wide default socket timeout, set by the application for whatever reason
             H.ws().setdefaulttimeout(default_timeout)
-        run = appsim.AppRun(plan, last_repeats=False, hooks=hooks)
+        run = appsim.AppRun(plan, last_repeats=False, hooks=hooks, app_kwargs=app_kwargs)
         out["run"] = run
         kw = dict(run_kwargs)
         if reconnect:
@@ -264,7 +268,17 @@ def responsive_case(res, W, rng, interval, to, phase, latency, traffic, tie, slo
     eps = 1e-3
     lat = {"zero": 0.0, "eps": eps, "half": to / 2, "almost": to - eps, "exact": to}[latency]
     dur = 22 * interval
-    script = traffic_script(traffic, phase, to, interval, dur) + [(dur, "close", b"\x03\xe8")]
+    if traffic == "fragments-straddle-pings":
+        # a fragmented message around every keepalive exchange: its first fragment arrives just before the ping goes out, its last one
+        # after the pong (but before the timeout would expire) - the pong is read in the middle of one message-level receive
+        script = []
+        for k in range(2, 22):
+            tp = k * interval
+            script.append((tp - min(0.05, to / 10), "frames", R.encode(R.TEXT, b"first-", fin=0)))
+            script.append((tp + lat + (to - lat) / 2, "frames", R.encode(R.CONT, b"last")))
+        script.append((dur, "close", b"\x03\xe8"))
+    else:
+        script = traffic_script(traffic, phase, to, interval, dur) + [(dur, "close", b"\x03\xe8")]
     plan = [dict(outcome="ok", script=script, pong=lat)]
     hooks = None
     if slow_handler:
@@ -353,13 +367,24 @@ def settings_case(res, W, kind, pi_, pt_):
 
 
 def payload_case(res, W, rng, interval, to):
-    for payload in ("", "hello", "ünï€", "x" * 125):
+    for payload in ("", "hello", "ünï€", "x" * 125) + (("key-source-hiccup",) if not to else ()):
         dur = 6 * interval
         plan = [dict(outcome="ok", script=[(dur, "close", b"")], pong=0.0)]
         kw = dict(ping_interval=interval, ping_payload=payload)
         if to:
             kw["ping_timeout"] = to
-        run, out, failure, S = execute(plan, kw, "loop-first", dur + 50)
+        app_kwargs = None
+        if payload == "key-source-hiccup":
+            # the application's mask-key source fails once (an entropy source hiccup): that ping is lost, the following ones go out on schedule
+            st = {"n": 0}
+
+            def key(n, st=st):
+                st["n"] += 1
+                if st["n"] == 1:
+                    raise RuntimeError("entropy source not ready")
+                return b"\x0a\x0b\x0c\x0d"[:n]
+            app_kwargs = dict(get_mask_key=key)
+        run, out, failure, S = execute(plan, kw, "loop-first", dur + 50, app_kwargs=app_kwargs)
         res.case(("payload", interval, to, payload), nontrivial=True)
         case = {"kind": "payload", "payload": payload, "interval": interval, "timeout": to}
 
@@ -368,7 +393,16 @@ def payload_case(res, W, rng, interval, to):
         if failure is not None or not run.servers:
             bad("no-return", str(failure))
             continue
-        check_pings(res, bad, run.servers[0], interval, payload.encode("utf-8"), dur)
+        if payload == "key-source-hiccup":
+            pings = run.servers[0].pings
+            res.count("key_source_hiccup_runs")
+            if len(pings) < 3:
+                bad("pings-stopped-early", f"after one failing ping (key source raised once) only {len(pings)} pings reached the peer in {dur}s (interval {interval}): "
+                    f"{[p[0] for p in pings]}")
+            else:
+                check_pings(res, bad, type("S", (), {"pings": pings, "opened_at": interval})(), interval, payload.encode("utf-8"), dur)
+        else:
+            check_pings(res, bad, run.servers[0], interval, payload.encode("utf-8"), dur)
         res.count("payload_runs")
 
 
